@@ -28,6 +28,9 @@ def main():
         print("no check for %s: %s" % (pid, e)); return 2
     if a.replay:
         return mod.replay(a.replay)
+    nparts = int(os.environ.get("VERIF_PARTS", "8") or 8)
+    if a.tier == "thorough" and core.PART_N == 1 and nparts > 1 and getattr(mod, "PARALLEL", True):
+        return run_parts(mod, pid, a.tier, seed, nparts)
     try:
         return mod.run(a.tier, seed)
     except core.Inconclusive as e:
@@ -36,6 +39,53 @@ def main():
         traceback.print_exc()
         return core.write_inconclusive(pid, a.tier, seed, getattr(mod, "LEVEL", "exploration"),
                                        "harness error: " + traceback.format_exc()[-400:])
+
+
+def run_parts(mod, pid, tier, seed, nparts):
+    """thorough tier: run the check as `nparts` independent parts in parallel processes and merge what they observed"""
+    import subprocess
+    t0 = time.time()
+    try:
+        for prof in getattr(mod, "PROFILES", ["dev", "release"]):
+            core.build_driver(prof)
+    except core.Inconclusive as e:
+        return core.write_inconclusive(pid, tier, seed, getattr(mod, "LEVEL", "exploration"), str(e))
+    procs = []
+    for i in range(nparts):
+        try:
+            os.remove(core.part_file(pid, tier, i))
+        except OSError:
+            pass
+        env = dict(os.environ, VERIF_PART="%d/%d" % (i, nparts), VERIF_SEED=str(seed))
+        procs.append(subprocess.Popen([sys.executable, os.path.abspath(__file__), pid, "--tier", tier, "--seed", str(seed)], env=env, stdout=subprocess.PIPE, stderr=subprocess.STDOUT, text=True))
+    outs = [p.communicate()[0] for p in procs]
+    ctx = core.Ctx(pid, tier, seed, getattr(mod, "LEVEL", "exploration"))
+    ctx.t0 = t0
+    missing = []
+    mins = (1, 2)
+    exhaustive = True
+    for i, (p, out) in enumerate(zip(procs, outs)):
+        fp = core.part_file(pid, tier, i)
+        if p.returncode != 0 or not os.path.exists(fp):
+            missing.append((i, p.returncode, out[-600:]))
+            continue
+        part = json.load(open(fp))
+        ctx.merge(part)
+        exhaustive = exhaustive and part.get("exhaustive", False)
+        mins = (part["min_evals"], part["min_nontrivial"])
+        os.remove(fp)
+    if missing:
+        for i, rc, out in missing:
+            print("part %d ended with status %s:\n%s" % (i, rc, out))
+        return core.write_inconclusive(pid, tier, seed, ctx.level, "%d of %d parts of the thorough run did not deliver a result" % (len(missing), nparts))
+    ctx.exhaustive = exhaustive
+    ctx.observed["parts"] = nparts
+    ctx.samples = ctx.samples[:8]
+    rc = ctx.finish(*mins)
+    post = getattr(mod, "post", None)
+    if post is not None and rc == core.EXIT_HELD:
+        rc = post(ctx) or rc
+    return rc
 
 
 if __name__ == "__main__":
